@@ -52,6 +52,9 @@ CHECKS = {
  "C18": ("exploration", "differential history monitor: the REPL's one-compiler/one-VM protocol driven piece by piece against the reference interpreter run incrementally, over partitions of generated programs with rejected and failing pieces inserted",
          "For each generated program all (short programs) or sampled partitions into pieces, with rejected pieces (syntax error, undefined name, const reassignment, duplicate function) and naturally failing pieces, agree with the incrementally run reference interpreter on per-piece status, value, error class, output and on all final globals; long sessions of thousands of pieces are included.",
          "The protocol is driven through public calls in the order of cmd/risor/repl getEvaluator (that closure lives in a separate module).", "DESIGN.md §5 C18"),
+ "C02": ("exploration", "reference-model monitor over generated closure scenarios (nested function trees x escape routes x call orders x host-side vm.Get/vm.Call); the model mirrors the VM frame stack to attribute a recorded finding",
+         "Scenario programs with function literals nested to depth 5, reading and writing bindings of any enclosing level and escaping through 12 routes, are evaluated by the reference interpreter (environment-pointer semantics) and by the real VM, including calls made from Go after the run; every observation, return value and the final state must agree. Held on the scenarios explored.",
+         "Spawned calls are waited for at once (no interleavings). Disagreements are attributed to recorded finding D1 only when the model's mirror of the call stack shows an off-stack deep capture in that run.", "DESIGN.md §5 C02"),
 }
 
 NOT_YET = {}
